@@ -7,7 +7,9 @@ Read with `ast` only (nothing is imported or executed):
   ford/sourceform.py        `_project_list` of every External* class that ENTITIES mentions, SUBLINK_TYPES,
                             the attribute names of FortranBase.children (argument order of self.iterator(...))
   ford/fortran_project.py   LINK_TYPES (dict str -> str, in source order), the order of the two arguments of
-                            chain(...) in find_used_modules
+                            chain(...) in find_used_modules, the shape of the chain(...) of Project.find
+                            (FIND_LOCAL_FIRST: own collections `if not name.startswith("ext")` first, then
+                            `if name.startswith("ext")`; false for the single chain over LINK_TYPES.values())
 Emitted: Coq lists of strings / pairs.  Out/ExternalProofs.v proves them equal to the tables the model
 Out/External.v was written against (C16_tables_fingerprint), so an edit of a table changes what is checked.
 Fail closed (exit 2, generated file untouched) on anything outside these shapes.
@@ -154,6 +156,43 @@ def main():
             raise Refuse("find_used_modules: chain argument is not a plain name")
         order.append(a.id)
 
+    # Project.find: chain(*(... for name in names if not name.startswith("ext")), *(... if name.startswith("ext")))
+    pf = None
+    for st in fp.body:
+        if isinstance(st, ast.ClassDef) and st.name == "Project":
+            pf = find_func(st, "find")
+    if pf is None:
+        raise Refuse("Project.find not found")
+    pchains = [n for n in ast.walk(pf) if isinstance(n, ast.Call) and isinstance(n.func, ast.Name)
+               and n.func.id == "chain"]
+    if len(pchains) != 1:
+        raise Refuse("Project.find: expected one chain(...) call")
+
+    def ext_test(gen):
+        """None: no filter; True: `name.startswith("ext")`; False: `not name.startswith("ext")`"""
+        if not (isinstance(gen, ast.Starred) and isinstance(gen.value, ast.GeneratorExp)
+                and len(gen.value.generators) == 1):
+            raise Refuse("Project.find: chain argument is not a starred generator expression")
+        ifs = gen.value.generators[0].ifs
+        if not ifs:
+            return None
+        if len(ifs) != 1:
+            raise Refuse("Project.find: more than one filter")
+        c, neg = ifs[0], False
+        if isinstance(c, ast.UnaryOp) and isinstance(c.op, ast.Not):
+            c, neg = c.operand, True
+        if not (isinstance(c, ast.Call) and isinstance(c.func, ast.Attribute) and c.func.attr == "startswith"
+                and len(c.args) == 1 and isinstance(c.args[0], ast.Constant) and c.args[0].value == "ext"):
+            raise Refuse("Project.find: unexpected filter")
+        return not neg
+    tests = [ext_test(a) for a in pchains[0].args]
+    if tests == [None]:
+        find_local_first = False
+    elif tests == [False, True]:
+        find_local_first = True
+    else:
+        raise Refuse(f"Project.find: unexpected chain shape {tests}")
+
     def lst(xs):
         return "[" + "; ".join(xs) + "]"
 
@@ -171,7 +210,8 @@ def main():
         f"Definition SUBLINK_TYPES_src : list (str * str) := {pairs(sublinks)}.\n"
         f"Definition LINK_TYPES_src : list (str * str) := {pairs(link_types)}.\n"
         f"Definition CHILDREN_src : list str := {lst(cstr(c) for c in children)}.\n"
-        f"Definition USE_CHAIN_src : list str := {lst(cstr(c) for c in order)}.\n")
+        f"Definition USE_CHAIN_src : list str := {lst(cstr(c) for c in order)}.\n"
+        f"Definition FIND_LOCAL_FIRST_src : bool := {'true' if find_local_first else 'false'}.\n")
     OUT.parent.mkdir(parents=True, exist_ok=True)
     if not OUT.exists() or OUT.read_text() != text:
         OUT.write_text(text)
